@@ -803,3 +803,48 @@ def q_iso_steps(kind, ops, obs):
         n = cN(o['n']) if kind == 'shared' else clist(['(%s, %s)' % (cN(g), cN(v)) for g, v in o['n']])
         out.append('(%s, %s, %s, %s)' % (q_op(op), q_res(o['r']), q_snap(kind, o['s']), n))
     return clist(out)
+
+
+def cross_link_scenario(rng, extra=8):
+    """PRE-STATE with cross-graph links, built through the real API: two graphs share node ids, the other graph's
+    shared nodes have neighbours of their own, merge_nodes moves those links onto this graph's nodes (the window
+    before the other graph's nodes are re-homed).  Then the graphs on either side (and a third one) are cloned,
+    deleted, re-imported, matched and modified: extract / clone must see exactly a graph's own nodes and the links
+    with BOTH ends in it."""
+    ga, gb, gc = rng.sample(GIDS[:3], 3)
+    shared = rng.sample(NIDS[:5], rng.choice([1, 1, 2]))
+    rest = [n for n in NIDS[:5] if n not in shared]
+    rng.shuffle(rest)
+    ops = []
+    for n in shared:
+        ops.append(['add_node', ga, n, rng.choice(CLASSES[:2]), gen_props(rng, pmax=1) or None])
+    if rng.random() < 0.6:
+        ops.append(['add_node', ga, rest[0], rng.choice(CLASSES[:2]), None])
+        ops.append(['add_link', ga, shared[0], rng.choice(RELS), rest[0], None])
+    for n in shared:
+        ops.append(['add_node', gb, n, rng.choice(CLASSES[:2]), None])
+    nb = rest[1:1 + rng.choice([1, 2])]
+    for n in nb:
+        ops.append(['add_node', gb, n, rng.choice(CLASSES[:2]), None])
+        ops.append(['add_link', gb, rng.choice(shared), rng.choice(RELS), n, gen_props(rng, pmax=1) or None])
+    if len(shared) == 2 and rng.random() < 0.5:
+        ops.append(['add_link', gb, shared[0], rng.choice(RELS), shared[1], None])
+    if rng.random() < 0.5:
+        ops.append(['add_node', gc, rng.choice(NIDS[:5]), rng.choice(CLASSES[:2]), None])
+    for n in (shared if rng.random() < 0.7 else shared[:1]):
+        ops.append(['merge', ga, n, gb, None if rng.random() < 0.6 else {rng.choice(PROPS): 'discard'}])
+    sh = Shadow()
+    for op in ops:
+        sh.apply(op)
+    w = dict(DEFAULT_WEIGHTS, merge=0, clone=30, del_graph=6, **{'import': 8}, matching=6, add_node=6, del_node=5,
+             add_link=4, list_ids=3, graph_exists=2, import_direct=2)
+    kinds = [k for k in w if w[k] > 0]
+    ws = [w[k] for k in kinds]
+    first = [['clone', ga, gc], ['clone', gb, gc], ['clone', ga, ga], ['matching', gc, ga], ['del_graph', gb], ['del_graph', ga]]
+    ops.append(rng.choice(first))
+    sh.apply(ops[-1])
+    for _ in range(extra):
+        op = gen_op(rng, sh, kinds, ws, GIDS[:3], NIDS[:5], identity_rate=0.0, malformed=0.05)
+        sh.apply(op)
+        ops.append(op)
+    return ops
